@@ -511,6 +511,42 @@ def gen_facts(node: Node, aliases) -> list[tuple[str, bool]]:
     return out
 
 
+def deref_facts(e, skip=("self", "cls")) -> list[tuple[str, bool]]:
+    """a local whose attribute or item was just read is not None (`x.y` / `x[i]` on None raises)"""
+    out = []
+    if e is None:
+        return out
+    for n in own_walk(e) if not isinstance(e, ast.expr) else ast.walk(e):
+        if isinstance(n, (ast.Attribute, ast.Subscript)) and isinstance(n.value, ast.Name) and isinstance(n.value.ctx, ast.Load) \
+                and n.value.id not in skip and isinstance(getattr(n, "ctx", None), ast.Load):
+            out.append((n.value.id + " is None", False))
+    return out
+
+
+@lru_cache(maxsize=None)
+def _subst_key(key: str, vs: str, t: str):
+    """the fact key with every occurrence of the expression `vs` replaced by `t`; None if it does not occur"""
+    if vs not in key:
+        return None
+    try:
+        tree = ast.parse(key, mode="eval")
+    except SyntaxError:
+        return None
+    hit = [False]
+
+    class T(ast.NodeTransformer):
+        def generic_visit(self, n):
+            if isinstance(n, ast.expr) and ast.unparse(n) == vs:
+                hit[0] = True
+                return ast.parse(t, mode="eval").body
+            return super().generic_visit(n)
+
+    new = T().visit(tree)
+    if not hit[0]:
+        return None
+    return ast.unparse(new.body)
+
+
 # ----------------------------------------------------------------------------- exploration
 class Bad(str):
     """returned by a step function to signal an automaton error"""
@@ -574,6 +610,7 @@ class Explorer:
         self.max_states = max_states
         self._eff: dict[int, Effects] = {}
         self._gen: dict[int, list] = {}
+        self._drf: dict[int, list] = {}
         self._atom: dict[int, tuple] = {}
         self._ev: dict[int, list] = {}
 
@@ -591,6 +628,16 @@ class Explorer:
                 e.names.add(node.node.name)
             self._eff[node.id] = e
         return e
+
+    def _deref(self, node: Node) -> list:
+        d = self._drf.get(node.id)
+        if d is None:
+            d = []
+            if node.kind in ("stmt", "test", "return") and isinstance(node.node, ast.AST) and not isinstance(node.node, (ast.FunctionDef, ast.AsyncFunctionDef, ast.ClassDef)):
+                stored = {x.id for x in ast.walk(node.node) if isinstance(x, ast.Name) and isinstance(x.ctx, (ast.Store, ast.Del))}
+                d = [f for f in deref_facts(node.node) if f[0][: -len(" is None")] not in stored]
+            self._drf[node.id] = d
+        return d
 
     def kill(self, facts: frozenset, node: Node) -> frozenset:
         e = self.eff(node)
@@ -629,6 +676,19 @@ class Explorer:
             return out
         if node.kind != "stmt":
             return out
+        if isinstance(s, ast.Assign) and len(s.targets) == 1 and isinstance(s.targets[0], ast.Tuple) and isinstance(s.value, ast.Name) \
+                and all(isinstance(e, ast.Name) for e in s.targets[0].elts):
+            # `a, b = pair`: what is known about pair[0] / pair[1] is known about a / b (and the pair itself is not None)
+            vs = s.value.id
+            for i, e in enumerate(s.targets[0].elts):
+                for k, p in facts:
+                    if k == EXC:
+                        continue
+                    nk = _subst_key(k, f"{vs}[{i}]", e.id)
+                    if nk is not None and nk != k:
+                        out.append((nk, p))
+            out.append((f"{vs} is None", False))
+            return out
         if isinstance(s, ast.Assign) and len(s.targets) == 1 and isinstance(s.targets[0], ast.Name):
             t, v = s.targets[0].id, s.value
         elif isinstance(s, ast.AnnAssign) and s.value is not None and isinstance(s.target, ast.Name):
@@ -638,14 +698,14 @@ class Explorer:
         if not isinstance(v, (ast.Name, ast.Attribute)):
             return out
         vs = ast.unparse(subst(v, self.aliases))
-        pre = f"isinstance({vs}, "
+        if vs == t:
+            return out
         for k, p in facts:
-            if k.startswith(pre):
-                out.append((f"isinstance({t}, " + k[len(pre):], p))
-            elif k == f"{vs} is None":
-                out.append((f"{t} is None", p))
-            elif k == vs:
-                out.append((t, p))
+            if k == EXC:
+                continue
+            nk = _subst_key(k, vs, t)
+            if nk is not None and nk != k:
+                out.append((nk, p))
         return out
 
     def run(self) -> Result:
@@ -697,7 +757,7 @@ class Explorer:
                             f2c = facts
                         else:
                             f2 = self.kill(facts, node)  # walrus targets
-                            f2c = _close(set(f2) | {(k, pol)})
+                            f2c = _close(set(f2) | {(k, pol)} | set(self._deref(node)))
                             if f2c is None:
                                 continue
                         f2 = f2c
@@ -707,7 +767,7 @@ class Explorer:
                         g = self._gen.get(node.id)
                         if g is None:
                             g = self._gen[node.id] = gen_facts(node, self.aliases)
-                        g = list(g) + self.transfer(facts, node)
+                        g = list(g) + self.transfer(facts, node) + self._deref(node)
                         if g:
                             f2c = _close(set(f2) | set(g))
                             f2 = f2c if f2c is not None else f2
